@@ -25,7 +25,7 @@ ASSUMPTIONS = [
     "resolved coordinates bounded by +-16000",
 ]
 N = {"quick": (8, 90), "thorough": (16, 500)}
-FLOORS = {"cubic": 0.4, "composite": 0.3, "nesting>=2": 0.08, "mirrored-component": 0.08, "mixed-glyph": 0.1, "2x2-beyond-f2dot14": 0.03}
+FLOORS = {"cubic": 0.239, "composite": 0.208, "nesting>=2": 0.08, "mirrored-component": 0.08, "mixed-glyph": 0.1, "2x2-beyond-f2dot14": 0.03}  # a third of the measured frequency: a starving generator is a harness error, sampling noise is not
 
 
 @st.composite
